@@ -63,6 +63,12 @@ func (in *interp) call(name string, args []ast.Arg, cur jv.Val, sc *scope, pdept
 		}
 	}
 	if in.failed() {
+		if len(args) >= 2 && in.f.undet == "" {
+			// an argument failed; an implementation may validate the other
+			// arguments first (or evaluate them lazily), so a type or value
+			// fault of another argument may be reported instead
+			in.f.err |= InvType | InvValue
+		}
 		return jv.VNull()
 	}
 	apply := func(i int) func(jv.Val) jv.Val {
@@ -328,16 +334,29 @@ func (in *interp) pad(vals []jv.Val, left bool) jv.Val {
 
 // keyKind classifies sort/extremum keys: all numbers, all strings, or bad.
 func (in *interp) keysOf(a []jv.Val, f func(jv.Val) jv.Val) ([]jv.Val, jv.Kind, bool) {
-	keys := make([]jv.Val, len(a))
-	for i, e := range a {
+	keys := make([]jv.Val, 0, len(a))
+	applyFailed := false
+	for _, e := range a {
 		if f != nil {
-			keys[i] = f(e)
+			k := in.iso(func() jv.Val { return f(e) })
 			if in.failed() {
-				return nil, 0, false
+				// keep going: the faults of all elements are collected, and the
+				// keys that could be computed are still type-checked below
+				applyFailed = true
+				continue
 			}
+			keys = append(keys, k)
 		} else {
-			keys[i] = e
+			keys = append(keys, e)
 		}
+	}
+	if applyFailed {
+		for _, x := range keys {
+			if (x.K != jv.Num && x.K != jv.Str) || x.K != keys[0].K {
+				in.fail(InvType)
+			}
+		}
+		return nil, 0, false
 	}
 	if len(keys) == 0 {
 		return keys, jv.Null, true
@@ -479,10 +498,12 @@ func (in *interp) builtin(name string, v []jv.Val, apply func(int) func(jv.Val) 
 		dup := false
 		for _, e := range a {
 			if e.K != jv.Arr {
-				return in.fail(InvType)
+				in.fail(InvType)
+				continue
 			}
 			if len(e.A) != 2 || e.A[0].K != jv.Str {
-				return in.fail(InvValue)
+				in.fail(InvValue)
+				continue
 			}
 			if e.A[0].T == jv.JSONOf {
 				return in.undet("consumes-to_string-text")
@@ -495,6 +516,9 @@ func (in *interp) builtin(name string, v []jv.Val, apply func(int) func(jv.Val) 
 			}
 			seen[e.A[0].S] = true
 			ms = append(ms, jv.Member{K: e.A[0].S, V: e.A[1]})
+		}
+		if in.failed() {
+			return jv.VNull()
 		}
 		if dup && topOrderMatters(v[0]) {
 			return in.undet("from_items-unordered-duplicates")
@@ -511,20 +535,24 @@ func (in *interp) builtin(name string, v []jv.Val, apply func(int) func(jv.Val) 
 		f := apply(1)
 		groups := map[string][]jv.Val{}
 		for _, e := range a {
-			k := f(e)
+			k := in.iso(func() jv.Val { return f(e) })
 			if in.failed() {
-				return jv.VNull()
+				continue
 			}
 			if k.K == jv.Null {
 				return in.undet("group_by-null-key")
 			}
 			if k.K != jv.Str {
-				return in.fail(InvType)
+				in.fail(InvType)
+				continue
 			}
 			if k.T == jv.JSONOf {
 				return in.undet("consumes-to_string-text")
 			}
 			groups[k.S] = append(groups[k.S], e)
+		}
+		if in.failed() {
+			return jv.VNull()
 		}
 		ms := make([]jv.Member, 0, len(groups))
 		for _, k := range sortedKeysA(groups) {
@@ -617,10 +645,10 @@ func (in *interp) builtin(name string, v []jv.Val, apply func(int) func(jv.Val) 
 		f := apply(0)
 		out := make([]jv.Val, len(a))
 		for i, e := range a {
-			out[i] = f(e)
-			if in.failed() {
-				return jv.VNull()
-			}
+			out[i] = in.iso(func() jv.Val { return f(e) })
+		}
+		if in.failed() {
+			return jv.VNull()
 		}
 		return jv.Val{K: jv.Arr, A: out, Unordered: v[1].Unordered}
 	case "max", "min":
